@@ -1,18 +1,8 @@
 #![allow(dead_code, unused_must_use)]
-mod engine;
-mod props;
-mod refmodel;
-mod session;
-mod gen_util;
-
-use engine::*;
+use nbv::PropDef;
+use nbv::engine::*;
+use nbv::props;
 use serde_json::Value as J;
-
-pub struct PropDef {
-    pub id: &'static str,
-    pub run: fn(&Cfg) -> Report,
-    pub replay: fn(&str, &J) -> CheckResult,
-}
 
 fn usage() -> ! {
     eprintln!("usage: nbv check <ID> [--tier quick|thorough] [--seed N] | nbv replay <file> | nbv list");
